@@ -534,3 +534,102 @@ def trace_record(rec: dict, role: str) -> dict:
             "inj": {"kind": inj.get("kind", "none"), "at": inj.get("at", 0),
                     "site": site if inj.get("kind") == "crash" else ""},
             "pts": pts, "out": out, "role": role, "fresh": rec["fresh"]}
+
+
+# ------------------------------------------------------------------------------------------------
+# campaigns: injection scenario x recovery tree, executed by worker processes
+# ------------------------------------------------------------------------------------------------
+V1 = {"P": 1, "C": 1, "G": 1}
+LEVEL = {1: "P", 2: "C", 3: "G"}
+_LAB: Optional[Lab] = None
+
+
+def toggle(vers: dict, e: int) -> dict:
+    v = dict(vers)
+    if e:
+        v[LEVEL[e]] = 3 - v[LEVEL[e]]
+    return v
+
+
+def role_of(inj: Optional[dict], runno: int) -> str:
+    if runno > 1:
+        return "recovery"
+    k = (inj or {}).get("kind", "none")
+    return {"none": "recording", "fault": "fault", "crash": "crash"}[k]
+
+
+def run_scenario(job: dict) -> list[dict]:
+    """One injection scenario and its recovery tree.  job = {inj, edits2, edits3, with_import,
+    id}.  Returns entries {hist, role, rec | imp}; hist as in Backend.tla (<<"run", e>>, <<"import", 0>>)."""
+    lab = _LAB
+    assert lab is not None
+    inj = job.get("inj")
+    out: list[dict] = []
+    db1 = lab.new_db("h")
+    r1 = lab.run(db1, V1, 1, inj)
+    out.append({"hist": [["run", 0]], "role": role_of(inj, 1), "rec": r1})
+
+    def recover(db: Path, hist: list, vers: dict, runno: int, edited: bool):
+        edits = job["edits2"] if runno == 2 else job["edits3"]
+        for e in edits:
+            if e and edited:
+                continue
+            if not e and runno >= 3:
+                continue
+            d = lab.copy_db(db, "r")
+            v = toggle(vers, e)
+            r = lab.run(d, v, runno)
+            h = hist + [["run", e]]
+            out.append({"hist": h, "role": "recovery", "rec": r})
+            if runno < 3:
+                recover(d, h, v, runno + 1, edited or bool(e))
+            lab.drop(d)
+
+    recover(db1, [["run", 0]], V1, 2, False)
+    if job.get("with_import") and r1["outcome"][0] == "ok":
+        pre = project(db1, lab.voc)
+        dbi = lab.import_into_new(db1, "i")
+        post = project(dbi, lab.voc)
+        h = [["run", 0], ["import", 0]]
+        out.append({"hist": h, "role": "import", "imp": {"pre": pre, "post": post}})
+        recover(dbi, h, V1, 2, False)
+        lab.drop(dbi)
+    lab.drop(db1)
+    for e in out:
+        e["scn"] = job["id"]
+        e["inj"] = inj or {"kind": "none"}
+    return out
+
+
+def import_trace(imp: dict) -> dict:
+    return {"pre": tables_only(imp["pre"]), "post": tables_only(imp["post"]), "reg": [1, 1, 1],
+            "no": 1, "inj": {"kind": "none", "at": 0, "site": ""}, "pts": [], "out": ["ok", "", []],
+            "role": "import", "fresh": "r11"}
+
+
+def run_campaign(scratch: Path, jobs: list[dict], workers: int = 8) -> list[dict]:
+    """Executes the scenarios on a fork pool; results in job order (deterministic)."""
+    import concurrent.futures as cf
+    import multiprocessing as mp
+
+    global _LAB
+    if _LAB is None or _LAB.scratch != Path(scratch):
+        _LAB = Lab(Path(scratch))
+        _LAB.new_db("warm").unlink()
+    res: list[dict] = []
+    if workers <= 1 or len(jobs) <= 1:
+        for j in jobs:
+            res.extend(run_scenario(j))
+        return res
+    with cf.ProcessPoolExecutor(max_workers=workers, mp_context=mp.get_context("fork")) as ex:
+        for part in ex.map(run_scenario, jobs, chunksize=1):
+            res.extend(part)
+    return res
+
+
+def model_inj(inj: dict) -> dict:
+    """The injection as Backend.tla names it (the three fault sites of a point are one model fault)."""
+    k = inj.get("kind", "none")
+    if k == "none":
+        return {"kind": "none", "at": 0, "site": ""}
+    return {"kind": k, "at": inj["at"], "site": inj["site"] if k == "crash" else ""}
